@@ -34,6 +34,7 @@ type FaultRun struct {
 	Live     []string     `json:"live"`            // files in the live store's lists after the operation
 	Reopened []string     `json:"reopened"`        // files loaded after close + reopen
 	LogsRe   int          `json:"logs_reopened"`   // intent-log files left after the reopen
+	Then     string       `json:"then,omitempty"`  // a fault-free follow-up operation run in the same live store before the restart
 	Early    []string     `json:"early"`           // out-of-order inputs removed before the intent log was created
 	LogOld   []string     `json:"logold"`          // old / new names in the intent log (with directory prefix), if it was written
 	LogNew   []string     `json:"lognew"`
@@ -116,7 +117,7 @@ func doOp(st *immutable.MmsTables, op string, fullSelf bool) error {
 func (c *caseCtx) faultRun(fc *faultCtl, master string, op string, kind string, failAt, hookAt, preHook int, hold map[string]bool,
 	before map[key]string) (run FaultRun, held int, pre int) {
 	run = FaultRun{Kind: kind, At: failAt}
-	if kind != "error" && kind != "dry" {
+	if kind != "error" && kind != "dry" && kind != "error-then" {
 		run.At = hookAt
 		if kind == "stop-write" {
 			run.At = preHook
@@ -193,6 +194,26 @@ func (c *caseCtx) faultRun(fc *faultCtl, master string, op string, kind string, 
 		run.Fail = append(run.Fail, "answers of the live store changed: "+d)
 	}
 	run.Fail = append(run.Fail, layout...)
+	if c.followOp != "" {
+		// the store lives on after the failed reorganisation: a further, fault-free reorganisation, then the restart below
+		// (what the failed one left behind - a complete intent log, new files as .init - meets a changed directory)
+		run.Then = c.followOp
+		func() {
+			defer func() {
+				if e := recover(); e != nil {
+					run.Fail = append(run.Fail, fmt.Sprintf("the follow-up %s panicked: %v", c.followOp, e))
+				}
+			}()
+			if e := doOp(st, c.followOp, c.fullSelf); e != nil {
+				run.Fail = append(run.Fail, "follow-up operation returned an error: "+e.Error())
+			}
+		}()
+		live2, layout2 := dumpStore(st)
+		if d := dumpDiff(before, live2); d != "" {
+			run.Fail = append(run.Fail, "answers of the live store changed by the follow-up "+c.followOp+": "+d)
+		}
+		run.Fail = append(run.Fail, layout2...)
+	}
 	run.Live = liveList(st, dir)
 	run.Disk, run.Logs = diskList(dir)
 	if len(refs) > 0 {
@@ -332,6 +353,38 @@ func runFaultCase(idx int, r *gen.Rand, work string, fc *faultCtl, quick bool, e
 	for k := 0; k < 3 && pre > 0; k++ {
 		run, _, _ := c.faultRun(fc, c.shardDir, op, "stop-write", -1, -1, r.Intn(pre), hold, before)
 		inst.Runs = append(inst.Runs, run)
+	}
+	// stale intent log: the log sync (the complete log stays, the new files stay .init) or the log removal (the complete log
+	// stays after a finished replacement) fails, the store lives on and merges / compacts again, then restarts
+	hasU := false
+	for _, n := range inst.Start {
+		hasU = hasU || strings.HasPrefix(n, "u/")
+	}
+	if m > 0 {
+		follow := "level0"
+		if op != "merge" && op != "mergeself" && hasU {
+			follow = "merge"
+		}
+		rmAt := -1
+		for j, e := range dry.Events {
+			if e.Class == "logremove" {
+				rmAt = j
+			}
+		}
+		for _, j := range []int{2, rmAt} {
+			if j < 0 || j >= m {
+				continue
+			}
+			if j == 2 && follow == "level0" && op != "merge" && op != "mergeself" {
+				// the same compaction would be planned again and meet its own leftover <name>.init: NewFile / NewMsBuilder
+				// panic with "file exist" in the compaction goroutine and the process dies (observation in NOTES.md)
+				continue
+			}
+			c.followOp = follow
+			run, _, _ := c.faultRun(fc, c.shardDir, op, "error-then", j, -1, -1, nil, before)
+			c.followOp = ""
+			inst.Runs = append(inst.Runs, run)
+		}
 	}
 	c.hist = append(c.hist, op)
 	inst.Hist = strings.Join(c.hist, " ")
